@@ -991,6 +991,103 @@ fn concurrent(tier: Tier, shard: usize, n: usize) -> Report {
 	rep
 }
 
+/// Iteration over key spaces larger than one internal page of the iterator (it loads 10 000 keys at
+/// a time): sizes around one, two and two-and-a-half pages, through Store::iter and through
+/// Batch::iter (with two uncommitted keys on top), in the default and in a prefixed key space.  The
+/// iterator must return exactly the committed keys, in order, and stop.
+fn bigiter(tier: Tier, shard: usize, n: usize) -> Report {
+	uni::init_thread();
+	let mut rep = Report::new();
+	let sc = uni::Scratch::new("c18b");
+	let sizes: Vec<u32> = tier.pick(vec![10_001, 20_001], vec![9_999, 10_000, 10_001, 19_999, 20_000, 20_001, 25_000, 30_001]);
+	let mut k = 0u64;
+	for &total in &sizes {
+		for space in [None, Some(PRE)] {
+			k += 1;
+			if !mine(k, shard, n) {
+				continue;
+			}
+			let dir = sc.fresh("big");
+			let store = open_store(&dir);
+			let case = json!({"part": "bigiter", "keys": total, "key_space": space});
+			let mut ok = true;
+			let mut i = 0u32;
+			while i < total {
+				let mut b = store.batch().expect("batch");
+				let end = (i + 5_000).min(total);
+				while i < end {
+					b.put_ser(space, &i.to_be_bytes(), &val((i % 251) as u8)).expect("put");
+					i += 1;
+				}
+				b.commit().expect("commit");
+			}
+			// a few keys in the other key space must not show up
+			{
+				let mut b = store.batch().expect("batch");
+				let other = if space.is_none() { Some(PRE) } else { None };
+				b.put_ser(other, b"other-1", &val(1)).expect("put");
+				b.put_ser(other, b"other-2", &val(2)).expect("put");
+				b.commit().expect("commit");
+			}
+			let cap = total as usize + 5_000;
+			let judge = |keys: Vec<Vec<u8>>, extra: usize, how: &str, rep: &mut Report| -> bool {
+				let want = total as usize + extra;
+				let mut good = keys.len() == want;
+				if good {
+					for (j, kk) in keys.iter().take(total as usize).enumerate() {
+						if kk.as_slice() != (j as u32).to_be_bytes() {
+							good = false;
+							break;
+						}
+					}
+				}
+				if !good {
+					let first_bad = keys.iter().take(total as usize).enumerate().find(|(j, kk)| kk.as_slice() != (*j as u32).to_be_bytes()).map(|(j, _)| j);
+					rep.violation(
+						format!("bigiter:{}:wrong-keys", how),
+						format!("{} over {} committed keys in key space {:?} returned {} keys (cap {}), expected {}; first wrong index {:?}", how, total, space, keys.len(), cap, want, first_bad),
+						case.clone(),
+					);
+				}
+				good
+			};
+			match store.iter(space, |k, _| Ok(k.to_vec())) {
+				Ok(it) => {
+					let keys: Vec<Vec<u8>> = it.take(cap).filter_map(|x| x.ok()).collect();
+					ok &= judge(keys, 0, "Store::iter", &mut rep);
+				}
+				Err(e) => {
+					rep.violation("bigiter:Store::iter:error", format!("{:?}", e), case.clone());
+					ok = false;
+				}
+			}
+			{
+				let mut b = store.batch().expect("batch");
+				// two uncommitted keys that sort after every committed one
+				b.put_ser(space, &[0xff, 0xff, 0xff, 0xfe, 1], &val(3)).expect("put");
+				b.put_ser(space, &[0xff, 0xff, 0xff, 0xff, 2], &val(4)).expect("put");
+				match b.iter(space, |k, _| Ok(k.to_vec())) {
+					Ok(it) => {
+						let keys: Vec<Vec<u8>> = it.take(cap).filter_map(|x| x.ok()).collect();
+						ok &= judge(keys, 2, "Batch::iter", &mut rep);
+					}
+					Err(e) => {
+						rep.violation("bigiter:Batch::iter:error", format!("{:?}", e), case.clone());
+						ok = false;
+					}
+				}
+				drop(b);
+			}
+			rep.evaluations += 2;
+			rep.distinct += 2;
+			rep.outcome(&format!("bigiter:{}-pages:{}", (total + 9_999) / 10_000, if ok { "exact" } else { "WRONG" }));
+			drop(store);
+			let _ = std::fs::remove_dir_all(&dir);
+		}
+	}
+	rep
+}
+
 impl Engine for C18 {
 	fn id(&self) -> &'static str {
 		"C18"
@@ -998,7 +1095,7 @@ impl Engine for C18 {
 	fn meta(&self, _tier: Tier) -> Meta {
 		Meta {
 			level: "model_checking",
-			rule: "(seq) explicit-state exploration: every sequence up to the depth bound over {batch, child (nesting <= 2), put (6 key/value/keyspace combinations over two key spaces), delete (3), commit, drop, reopen} executed on a real Store; after EVERY operation every key is read inside the innermost open level (get_ser, exists, iter) and through the Store (outside view) and compared with a nested-transaction map model (stack of overlays); memoised on (model state, remaining depth). (growth) every well-formed sequence of the length bound over {write 48 KiB value, write a pair, open iterator, drain iterator, reopen} on a store pre-filled to 65 % of its 1 MiB map, so that one or two automatic resizes happen with and without an open read view: no operation may fail, every committed value reads back byte-exact, an iterator sees exactly its snapshot. (crash) a kill at every crash point around the commit of a flat and of a nested batch writing a pair across two key spaces: after reopen the pair is visible entirely or not at all, entirely once commit returned, and earlier commits survive. (concurrent) under the controlled scheduler, every schedule up to the preemption bound of {thread A: open iterator, three nested reads, drain; thread B: a batch that needs the map enlarged and writes a pair; thread C: get + iterator} on a store filled just past the resize threshold, the resize waiter thread being a scheduled participant: no deadlock or livelock, every operation Ok, iterators see all fill keys and the pair entirely or not at all, nothing committed is lost; and the same for {thread A': open iterator, nested read, commit a small batch of its own, drain; thread B': a batch of 3 x 48 KiB + a pair, more than the old map has left}.",
+			rule: "(seq) explicit-state exploration: every sequence up to the depth bound over {batch, child (nesting <= 2), put (6 key/value/keyspace combinations over two key spaces), delete (3), commit, drop, reopen} executed on a real Store; after EVERY operation every key is read inside the innermost open level (get_ser, exists, iter) and through the Store (outside view) and compared with a nested-transaction map model (stack of overlays); memoised on (model state, remaining depth). (growth) every well-formed sequence of the length bound over {write 48 KiB value, write a pair, open iterator, drain iterator, reopen} on a store pre-filled to 65 % of its 1 MiB map, so that one or two automatic resizes happen with and without an open read view: no operation may fail, every committed value reads back byte-exact, an iterator sees exactly its snapshot. (bigiter) key spaces of 10 001 and 20 001 keys (thorough: 9 999 ... 30 001, around the iterator's internal page of 10 000 keys) are iterated through Store::iter and Batch::iter: exactly the committed keys, in order, then the end. (crash) a kill at every crash point around the commit of a flat and of a nested batch writing a pair across two key spaces: after reopen the pair is visible entirely or not at all, entirely once commit returned, and earlier commits survive. (concurrent) under the controlled scheduler, every schedule up to the preemption bound of {thread A: open iterator, three nested reads, drain; thread B: a batch that needs the map enlarged and writes a pair; thread C: get + iterator} on a store filled just past the resize threshold, the resize waiter thread being a scheduled participant: no deadlock or livelock, every operation Ok, iterators see all fill keys and the pair entirely or not at all, nothing committed is lost; and the same for {thread A': open iterator, nested read, commit a small batch of its own, drain; thread B': a batch of 3 x 48 KiB + a pair, more than the old map has left}.",
 			assumptions: vec![
 				"batches stay within the headroom the resize rule guarantees (<= 10 % of the map per batch)".into(),
 				"(concurrent) preemption bound 1 (quick) / 2 (thorough); scheduling points are util::RwLock operations (incl. the environment map), the LMDB writer lock, the two polling loops and thread start/exit of the resize waiter".into(),
@@ -1007,7 +1104,7 @@ impl Engine for C18 {
 		}
 	}
 	fn parts(&self, _tier: Tier) -> Vec<(&'static str, usize)> {
-		vec![("seq", 12), ("growth", 8), ("crash", 1), ("concurrent", 12)]
+		vec![("seq", 12), ("growth", 8), ("crash", 1), ("concurrent", 12), ("bigiter", 4)]
 	}
 	fn run_part(&self, part: &str, tier: Tier, shard: usize, n: usize) -> Report {
 		match part {
@@ -1015,6 +1112,7 @@ impl Engine for C18 {
 			"growth" => growth(tier, shard, n),
 			"crash" => crash(tier),
 			"concurrent" => concurrent(tier, shard, n),
+			"bigiter" => bigiter(tier, shard, n),
 			_ => panic!("unknown part"),
 		}
 	}
